@@ -77,6 +77,8 @@ def exec_hint(eng, p, h, idx):
 
     honest = eng.honest
     p.hints.append(occ)
+    # hints whose honest relation here is looser than the runner's deterministic choice
+    occ.loose = honest and name in ("U256InvModN", "FieldSqrt", "RandomEcPoint")
 
     def adv(*cells):
         for c in cells:
